@@ -38,6 +38,8 @@ DEFS = [
     ("lifetime", "pub struct @<'a, T: 'static> { pub a: &'a T, pub b: std::borrow::Cow<'a, str> }", ["T"], {"lifetimes": 1}),
     ("const", "pub struct @<T, const N: usize> { pub a: [T; N], pub b: T }", ["T"], {"consts": ["2"]}),
     ("const with default", "pub struct @<T, const N: usize = 2> { pub a: [T; N], pub b: T }", ["T"], {"consts": ["3"]}),
+    # the same definition at several values of the const parameter in one process (its declaration depends on the value)
+    ("const at several values", "pub struct @<T, const N: usize> { pub a: [T; N], pub b: Option<T> }", ["T"], {"consts_var": [["1"], ["3"], ["2"], ["0"]], "per_value": True}),
     ("concrete", '#[ts(concrete(B = i32))] pub struct @<A, B> { pub a: A, pub b: B }', ["A"], {"concrete": {"B": "i32"}}),
     ("concrete with default", '#[ts(concrete(B = i32))] pub struct @<A, B = u8> { pub a: A, pub b: B }', ["A"], {"concrete": {"B": "i32"}}),
     ("all concrete with default", '#[ts(concrete(T = bool))] pub enum @<T = bool> { A(T), B { x: Vec<T> }, C }', [], {"concrete": {"T": "bool"}}),
@@ -76,7 +78,8 @@ def build():
             if "order" in opts:      # declaration order of the type parameters when the concrete ones are not the last
                 it = iter(args[:len(params)])
                 tyargs = [opts["concrete"][n_] if n_ in opts["concrete"] else next(it) for n_ in opts["order"]]
-            full = (["'static"] * opts.get("lifetimes", 0)) + tyargs + opts.get("consts", [])
+            consts = opts["consts_var"][an % len(opts["consts_var"])] if "consts_var" in opts else opts.get("consts", [])
+            full = (["'static"] * opts.get("lifetimes", 0)) + tyargs + consts
             insts.append((args, "%s<%s>" % (base, ", ".join(full))))
         # the definition lives in the shared prelude; each instantiation is one unit (type alias)
         plan.append((base, label, src.replace("@", base), params, opts, insts))
@@ -150,7 +153,12 @@ def run(tier):
                 for w in witness.witnesses(conc, e2, limit=8):
                     brecords.append({"kind": "ser", "decls": [gdecl], "root": gen_root, "json": tsparse.json_value(w), "accepted": True, "reser": {"k": "null"}})
                     bmeta.append((label, ty, "concrete in generic", json.dumps(w), info["decl"]["ok"], info["decl_concrete"]["ok"]))
-        if irecs:
+        if irecs and opts.get("per_value"):
+            # the declaration depends on the value of the const parameter: every instantiation is judged on its own
+            for k_, ir in enumerate(irecs):
+                recs.append({"params": want, "insts": [ir], "known": sorted(env.keys())})
+                rmeta.append((label, src, [obs["%sI%d" % (base, k_)]["info"]["decl"].get("ok")], [obs["%sI%d" % (base, k_)]["info"]["name"].get("ok")]))
+        elif irecs:
             recs.append({"params": want, "insts": irecs, "known": sorted(env.keys())})
             rmeta.append((label, src, [obs["%sI%d" % (base, k)]["info"]["decl"].get("ok") for k in range(len(insts))],
                           [obs["%sI%d" % (base, k)]["info"]["name"].get("ok") for k in range(len(insts))]))
